@@ -36,10 +36,15 @@ Oracle: /verif/spec/gvariant_types.json (transcribed from the GVariant serialisa
              same length that is passed to write_all); reader: a field's end offset is read only for a
              not-fixed-size field that is not the last one
 
-Dropped (cannot be made exact here): G-PAD (padding discipline of the GVariant serializer) is the same rule
-as C01's P-PAD and is left to that module; the dict-entry conjunction structure (key && value) is checked as
-"same subjects, same polarity" not as a boolean formula; arithmetic at the 255/65535 thresholds beyond the
-comparison shape of T-FOS-SEL is value-level.
+  G-PAD      the four GVariant container openers (serialize_seq, serialize_maybe, StructSerializer::structure,
+             StructSerializer::variant) call add_padding with the GVariant alignment of the current
+             signature (the constant 8 for a variant) on every non-error path and before `bytes_written`
+             is sampled as the container's start
+
+Dropped / weakened (cannot be made exact here): the dict-entry conjunction structure (key && value) is
+checked as "same subjects, same polarity", not as a boolean formula; per-element padding inside arrays and
+dict entries is not covered by G-PAD; arithmetic at the 255/65535 thresholds beyond the comparison shape
+of T-FOS-SEL is value-level.
 """
 import json, os, re
 from .. import mir
@@ -56,7 +61,7 @@ META = {
     "level": ("Decides that the GVariant alignment and fixed-size tables, the framing-offset width tables and the width selection "
               "comparison equal the specification, that base types are written with the specified width, and that writer and "
               "reader agree on when terminators and framing offsets exist (maybe, array, variant, structure). Does not decide "
-              "offset arithmetic values or padding placement (C01's P-PAD)."),
+              "offset arithmetic values or per-element padding."),
 }
 
 
@@ -944,13 +949,68 @@ def check_offset_source(ctx, f):
     ctx.floor("G-OFFSRC", "write_offset call sites", n, 2)
 
 
+def check_padding(ctx, f, spec):
+    """G-PAD: every GVariant container opener pads to the container's GVariant alignment before it
+    records its start offset / writes anything, on every non-error path."""
+    sites = [
+        ("serialize_seq", f.find(name="serialize_seq", adt=GSER + "Serializer", trait="serde_core::ser::Serializer"), "sig"),
+        ("serialize_maybe", f.find(name="serialize_maybe", adt=GSER + "Serializer", trait=""), "sig"),
+        ("StructSerializer::structure", f.find(name="structure", adt=GSER + "StructSerializer", trait=""), "sig"),
+        ("StructSerializer::variant", f.find(name="variant", adt=GSER + "StructSerializer", trait=""), "variant"),
+    ]
+    for name, lst, kind in sites:
+        b = ctx.one(lst, "gvariant " + name)
+        pads = [c for c in mir.calls(b) if c.is_("add_padding") and "SerializerCommon" in c.callee and len(c.args) == 2]
+        good = []
+        for c in pads:
+            k = mir.resolve_const(b, c.args[1])
+            if kind == "variant":
+                if k is not None and k.get("v") == spec["types"]["Variant"]["align"]:
+                    good.append(c)
+                continue
+            o = mir.origin(b, c.args[1])
+            if o[0] == "call" and o[1].callee == SIG + "::alignment" and len(o[1].args) == 2:
+                fo = mir.origin(b, o[1].args[1])
+                gv = (fo[0] == "rv" and fo[1][0] == "agg" and fo[1][2].endswith("::Format") and fo[1][3] == "GVariant") or \
+                     (fo[0] == "call" and fo[1].is_("format") and "Context" in fo[1].callee)
+                so = mir.origin(b, o[1].args[0])
+                cur_sig = so[0] in ("place", "ref") and "signature" in mir.place_fields(so[1])
+                if gv and cur_sig:
+                    good.append(c)
+        ctx.ob("G-PAD", name + ":pads-to-gvariant-alignment", bool(good),
+               "pads with the GVariant alignment of the container's signature" if good else
+               "no add_padding(alignment of the current signature in GVariant format) found", b.where)
+        if not good:
+            continue
+        gb = {c.b for c in good}
+        esc = returns_from(b, 0, avoid=gb | err_blocks(b))
+        ctx.ob("G-PAD", name + ":on-every-path", not esc, "every non-error return passes the padding" if not esc else
+               "a non-error return skips the padding", good[0].where)
+        reads = [(bb, i) for bb, i, pl, rv, ln in mir.assignments(b)
+                 for op in mir.rvalue_operands(rv) if mir.op_place(op) and "bytes_written" in mir.place_fields(mir.op_place(op))]
+        ok = all(any(mir.block_dominates(b, g, bb) and g != bb for g in gb) for bb, i in reads)
+        ctx.ob("G-PAD", name + ":before-start-offset", ok, "bytes_written is sampled only after the padding" if ok else
+               "the start offset is sampled before the padding", good[0].where)
+
+
+def err_blocks(body):
+    out = set()
+    for c in mir.calls(body):
+        if c.dest[0] == mir.RET and c.is_("from_residual"):
+            out.add(c.b)
+    for b, i, pl, rv, ln in mir.assignments(body):
+        if pl[0] == mir.RET and not pl[1] and rv[0] == "agg" and rv[1] == "adt" and rv[2] == "core::result::Result" and rv[3] == "Err":
+            out.add(b)
+    return out
+
+
 def run(ctx):
     ctx.explanation = ("R-TABLE by symbolic evaluation of each match arm of alignment_gvariant / is_fixed_sized / the four "
                        "FramingOffsetSize tables against /verif/spec/gvariant_types.json; comparison shape of the width selection; "
                        "written width of each base type; control dependence of terminators and framing offsets on is_fixed_sized on "
                        "both writer and reader (maybe, array/dict, variant, structure); source of every written offset width. K2 only "
                        "(the GVariant code is not compiled in K1).")
-    ctx.not_decided = "offset arithmetic values at the 255/65535 thresholds beyond the comparison shape; padding placement (C01 P-PAD)."
+    ctx.not_decided = "offset arithmetic values at the 255/65535 thresholds beyond the comparison shape; per-element padding inside arrays and dict entries."
     ctx.trusted.append("/verif/spec/gvariant_types.json (transcription of the GVariant specification)")
     spec = json.load(open(SPEC))
     f = ctx.facts("K2")
@@ -964,3 +1024,4 @@ def run(ctx):
     check_array(ctx, f, fx.id)
     check_variant(ctx, f)
     check_struct(ctx, f, fx.id)
+    check_padding(ctx, f, spec)
